@@ -12,6 +12,11 @@ measures them on the real binaries and does the arithmetic `budget + G + headroo
 * `runtime_depth_bound*`: on every execution of the evaluator the native depth stays within
   `budget + G`, where `G` is the largest guard-free gap — with the folded unguarded recursion of the
   value helpers as an explicit proviso (data nesting `d`).
+* `exec_stmt_descents_probed_on_every_path`: the `If`/`Loop` arm of `exec_stmt` has no probe of its own — it is
+  covered because evaluating the condition enters `eval_expr`.  That implicit dependency is an explicit
+  obligation: on the straight-line prefix of every arm that descends into a nested block a probe is certain
+  (`mustProbe` over the extracted table `Gen.Stack.straightCalls`), so no path reaches the body without one —
+  not even a path on which nothing has to be evaluated; `cond_arm_probe_is_necessary` shows what fails otherwise.
 * negative results (finding D-08): the unfolded evaluator graph (value helpers), the parser, the
   resolver and the CFG builder each contain a cycle without any guard, so no bound exists there.
   (The unprobed `Stmt::Block` cycle of the evaluator was fixed in a3b6c8a; the lexer recursion D-07c too.)
@@ -63,6 +68,27 @@ into a block only after a probe; no arm descends without one; no other arm desce
 theorem gen_exec_stmt_arms :
     (Gen.Stack.execStmtArms.filter (fun a => a.2.1 && a.2.2)).map (·.1) = [b!"If", b!"Loop", b!"Block"] ∧
     (Gen.Stack.execStmtArms.filter (fun a => a.2.1 && !a.2.2)).map (·.1) = [] := by decide
+
+/-- **A probe on every path to a descent.**  The arms of `exec_stmt` that descend into a nested block are `If`,
+`Loop` and `Block`, and each of them calls a probe on its straight-line prefix — before it can branch and before
+the descent: `Block` calls `check_stack` itself; `If` and `Loop` call `eval_expr`, whose own straight-line prefix
+is the probe.  So no path reaches the body of a nested statement without a probe, not even one on which nothing
+has to be evaluated.  (A shortcut that returns a condition without entering `eval_expr` on some path — a helper
+that branches before it probes — makes this false.) -/
+theorem exec_stmt_descents_probed_on_every_path :
+    Gen.Stack.execStmtDescents = [armName (b!"If"), armName (b!"Loop"), armName (b!"Block")] ∧
+    Gen.Stack.execStmtDescents.all (mustProbe Gen.Stack.straightCalls Gen.Stack.guardFns 4) = true := by decide
+
+/-- The guard annotation of the model's three `exec_stmt` frames is exactly that fact: a frame is annotated as
+guarded iff the arm it stands for descends and is certain to have probed; the leaf arms do not descend. -/
+theorem exec_stmt_guard_annotation_justified :
+    ([b!"If", b!"Loop", b!"Block"].all fun k =>
+      (stmtKindFrame k).map runtimeGuarded ==
+        some (mustProbe Gen.Stack.straightCalls Gen.Stack.guardFns 4 (armName k))) = true ∧
+    (Gen.Stack.execStmtArms.all fun a =>
+      match stmtKindFrame a.1 with
+      | some f => runtimeEdges.contains (f, Fn.exec_block) == a.2.1
+      | none => false) = true := by decide
 
 /-- The scan really saw runtime.rs (guards against an extractor that silently finds nothing). -/
 theorem gen_scan_sane : 40 ≤ Gen.Stack.runtimeFnCount ∧ 15 ≤ Gen.Stack.recursiveFns.length := by decide
@@ -358,6 +384,23 @@ theorem block_guard_blocks_descent (c : Fn → Nat) (budget : Nat) (s : List Fn)
   intro st
   cases st with
   | push _ hg => have := hg rfl; omega
+
+/-- The obligation `exec_stmt_descents_probed_on_every_path` is load-bearing: were there a path through the
+`If`/`Loop` arm that reaches the body without a probe (the frame `exec_stmt_cond` unguarded), the cycle
+`exec_block_with_flow → exec_stmt → exec_block_with_flow` would be probe-free and the evaluator's native depth
+would have no bound — only the height of the tower of nested statements the parser accepts limits it then, and
+that tower may start right below the budget line. -/
+theorem cond_arm_probe_is_necessary : Unbounded runtimeGraphCondUnprobed .run_inner :=
+  unbounded_of_free_cycle _ _ .exec_block [.exec_stmt_cond] [] (by decide) (by decide)
+
+theorem cond_arm_unprobed_not_acyclic (r : Fn → Nat) : rankOK runtimeGraphCondUnprobed r = false := by
+  cases h : rankOK runtimeGraphCondUnprobed r with
+  | false => rfl
+  | true =>
+    have h1 := List.all_eq_true.mp h (.exec_block, .exec_stmt_cond) (by decide)
+    have h2 := List.all_eq_true.mp h (.exec_stmt_cond, .exec_block) (by decide)
+    simp [runtimeGraphCondUnprobed, runtimeGuarded] at h1 h2
+    omega
 
 /-! ### The full statement and what holds of the fixed code -/
 
